@@ -228,6 +228,9 @@ class World:
             self.emit('set %s repository %s' % (e.slot, r.choice([S('http://x'), '~'])))
         elif e.kind == 'T':
             self.emit('set %s %s' % (e.slot, r.choice(['units ' + lst([S('mV')]), 'extent ' + lst([f64(1.0)]), 'units ~'])))
+        elif q < 0.9 and e.kind != 'S' and not getattr(self, 'keep_created', False):
+            # any creation time is a creation time: the epoch itself, times before it, the far future
+            self.emit('fm_ent %s forcecreated %d' % (e.slot, r.choice([0, 0, 1, -1, -86400, 1000, 2 ** 31, 4102444800, 1000000000 + r.randrange(100000)])))
         else:
             self.emit('set %s definition %s' % (e.slot, S('d')))
 
@@ -237,6 +240,7 @@ class World:
         r = self.rng
         q = r.random()
         a = self.pick('A')
+        if a and r.random() < 0.5: self.emit('xdim %s' % a.slot)      # dimension handles kept from before against fresh ones
         if q < 0.3 and a:
             k = r.random()
             if k < 0.3: self.emit('adim %s sampled %s %s %s %s' % (a.slot, f64(r.choice([0.5, 1.0, 0.1])), r.choice(['~', S('time')]), r.choice(['~', S('ms')]), r.choice(['~', f64(-1.5), f64(2.0)])))
